@@ -50,7 +50,8 @@ Definition comment_lx (c : option comment) : Prop := match c with Some c => no_n
 Definition hlx (h : header) : Prop :=
   ref_ok (htype h) /\ Forall tlx (htags h) /\ Forall tlx (hquals h) /\ comment_lx (hcomment h) /\
   match hdesc h with
-  | Some d => (exists t, dtoks d = [t] /\ ty t = DESCRIPTION /\ tok_lx t) /\ hopen h = false /\ hcomment h = None
+  | Some d => (exists t, dtoks d = [t] /\ ty t = DESCRIPTION /\ tok_lx t) /\ hopen h = false /\ hcomment h = None /\
+              dvalue d = join_with 10 (map lit (dtoks d))
   | None => True
   end.
 Definition alx (a : assign) : Prop :=
@@ -421,7 +422,7 @@ Proof.
     destruct (end_statement_lx s3 c s5 Hok3 Hl3 Ht3 Ee) as [Hc _].
     intros [= <- _]. cbn. split; [exact Hr|]. split; [exact Htags|]. split; [exact Hquals|]. split; [exact Hc|exact I].
   - rewrite E4. cbn [wbind]. intros [= <- _]. cbn. split; [exact Hr|]. split; [exact Htags|]. split; [exact Hquals|]. split; [exact I|].
-    split; [|split; reflexivity].
+    split; [|split; [reflexivity|split; reflexivity]].
     exists t4. split; [reflexivity|]. split; [exact Hty4|].
     eapply pop_lx; eauto. rewrite En3. discriminate.
   - rewrite E4. cbn [wbind].
